@@ -1,5 +1,6 @@
 import FlVerif.Op.ParsePostfix
 import FlVerif.Lemmas.Expr
+import FlVerif.Lemmas.ParsePostfix
 
 /-! Rejection of ill-formed formulas, for every token list:
     * the loop only moves tokens, so the *operand balance* `Σ (1 − arity)` of the postfix form is the one of the input,
@@ -493,5 +494,80 @@ theorem sy_mem : ∀ (ts q st out : List Tok), sy ts q st = .ok out →
           · exact hst t ((hm t).1 h)
         · intro t h; exact hst t ((hm t).2 (List.mem_cons_of_mem _ h))
       · cases h
+
+end Op
+
+namespace Op
+open Lang
+
+/-- what the stack machine guarantees of every tree it builds: node kinds agree with the arities, and every token of
+    its postfix form satisfies `P` (when every input token does) -/
+theorem build_inv (P : Tok → Prop) : ∀ (ts : List Tok) (stk out : List Expr), SmallArity ts → (∀ t ∈ ts, P t) →
+    (∀ e ∈ stk, Arities e ∧ ∀ t ∈ e.pfx, P t) → build ts stk = .ok out → ∀ e ∈ out, Arities e ∧ ∀ t ∈ e.pfx, P t := by
+  intro ts
+  induction ts with
+  | nil => intro stk out _ _ hs h; simp only [build, Except.ok.injEq] at h; subst h; exact hs
+  | cons t ts ih =>
+    intro stk out hsa hP hs h
+    have hsa' : SmallArity ts := fun f hf => hsa f (by simp [hf])
+    have hP' : ∀ t ∈ ts, P t := fun x hx => hP x (by simp [hx])
+    have hPt : P t := hP t (by simp)
+    cases t with
+    | operand s =>
+      simp only [build] at h
+      refine ih _ _ hsa' hP' ?_ h
+      intro e he
+      rcases List.mem_cons.1 he with he | he
+      · subst he; exact ⟨trivial, by intro t ht; simp [Expr.pfx] at ht; subst ht; exact hPt⟩
+      · exact hs e he
+    | el f =>
+      have hf2 := hsa f (by simp)
+      simp only [build] at h
+      split at h
+      · cases h
+      · split at h
+        · rename_i h0
+          refine ih _ _ hsa' hP' ?_ h
+          intro e he
+          rcases List.mem_cons.1 he with he | he
+          · subst he; exact ⟨h0, by intro t ht; simp [Expr.pfx] at ht; subst ht; exact hPt⟩
+          · exact hs e he
+        · split at h
+          · rename_i h2
+            match stk, hs, h with
+            | r :: l :: s, hs, h =>
+              refine ih _ _ hsa' hP' ?_ h
+              intro e he
+              rcases List.mem_cons.1 he with he | he
+              · subst he
+                have hl := hs l (by simp)
+                have hr := hs r (by simp)
+                refine ⟨⟨h2, hl.1, hr.1⟩, ?_⟩
+                intro t ht
+                simp only [Expr.pfx, List.mem_append, List.mem_singleton] at ht
+                rcases ht with (ht | ht) | ht
+                · exact hl.2 t ht
+                · exact hr.2 t ht
+                · subst ht; exact hPt
+              · exact hs e (by simp [he])
+          · rename_i h0 h2
+            have h1 : f.arity = 1 := by omega
+            match stk, hs, h with
+            | r :: s, hs, h =>
+              refine ih _ _ hsa' hP' ?_ h
+              intro e he
+              rcases List.mem_cons.1 he with he | he
+              · subst he
+                have hr := hs r (by simp)
+                refine ⟨⟨h1, hr.1⟩, ?_⟩
+                intro t ht
+                simp only [Expr.pfx, List.mem_append, List.mem_singleton] at ht
+                rcases ht with ht | ht
+                · exact hr.2 t ht
+                · subst ht; exact hPt
+              · exact hs e (by simp [he])
+    | comma => simp only [build] at h; exact ih _ _ hsa' hP' hs h
+    | lp => simp only [build] at h; exact ih _ _ hsa' hP' hs h
+    | rp => simp only [build] at h; exact ih _ _ hsa' hP' hs h
 
 end Op
